@@ -5,7 +5,10 @@
    `accepted_run_safe`) over the actions and compares the abstract nodes with the real ones:
      ok                                      every action accepted, states equal
      reject <action> <failed preconditions>  `apply` returned none (the diagnosis is informative only)
-     state-mismatch node=.. field=..         the accepted abstract run does not describe the real nodes
+     state-mismatch node=.. field=..         the accepted abstract run does not describe the real nodes; fields: term, role,
+                                             commit, lastindex, log, vote (whom the node has voted for in its current term,
+                                             `votesIn camp voted`), durable-term / durable-vote / durable-commit (what the
+                                             storage object REALLY holds against dterm, `votesIn scamp svoted`, dcommit)
      ack-mismatch response=q,t,i             a MsgAppResp the real node released confirms something else than the
                                              ack the abstract run recorded
      bad-op                                  line outside the certificate (session suspended by the harness,
@@ -23,6 +26,10 @@ structure RealNode where
   commit : Nat
   off : Nat
   ents : List Entry
+  vote : Nat      -- the volatile r.Vote, 0 = none
+  dterm : Nat     -- HardState read back from the storage object
+  dvote : Nat
+  dcommit : Nat   -- as abstract index
 
 structure DS where
   active : Bool
@@ -134,6 +141,16 @@ def diag (vs : List Nat) (s : St) : Action → String
   | .bump j t => if s.term j < t then "" else s!"term-not-higher(term={s.term j})"
   | _ => ""
 
+/-- the volatile vote of `j`: campaigns and grants computed so far (a crash forgets the unflushed ones) in its current term -/
+def absVote (s : St) (j : Nat) : List Nat := votesIn s.camp s.voted j (s.term j)
+/-- the durable vote of `j`: campaigns and grants that were flushed, in its durable term -/
+def absDVote (s : St) (j : Nat) : List Nat := votesIn s.scamp s.svoted j (s.dterm j)
+
+def showVotes (l : List Nat) : String :=
+  match l.eraseDups with
+  | [] => "0"
+  | l' => ",".intercalate (l'.map toString)
+
 def firstDiff : Nat → List Entry → List Entry → Nat
   | i, a :: as, b :: bs => if a = b then firstDiff (i + 1) as bs else i
   | i, _, _ => i
@@ -151,6 +168,14 @@ def cmpNode (s : St) (r : RealNode) : Option String :=
     else if lg.drop r.off ≠ r.ents then
       let i := firstDiff (r.off + 1) (lg.drop r.off) r.ents
       some s!"state-mismatch node={r.id} field=log index={i} abs-term={termAt lg i} real-term={termAt ((List.replicate r.off ⟨0, 0⟩) ++ r.ents) i}"
+    else if !voteAgrees (absVote s r.id) r.vote then
+      some s!"state-mismatch node={r.id} field=vote term={r.term} abs={showVotes (absVote s r.id)} real={r.vote}"
+    else if s.dterm r.id ≠ r.dterm then
+      some s!"state-mismatch node={r.id} field=durable-term abs={s.dterm r.id} real={r.dterm}"
+    else if !voteAgrees (absDVote s r.id) r.dvote then
+      some s!"state-mismatch node={r.id} field=durable-vote term={r.dterm} abs={showVotes (absDVote s r.id)} real={r.dvote}"
+    else if s.dcommit r.id ≠ r.dcommit then
+      some s!"state-mismatch node={r.id} field=durable-commit abs={s.dcommit r.id} real={r.dcommit}"
     else none
 
 def parseNode (old : List RealNode) (s : String) : Option RealNode :=
@@ -161,8 +186,16 @@ def parseNode (old : List RealNode) (s : String) : Option RealNode :=
   else
     match s.splitOn ":" with
     | id :: t :: r :: c :: off :: rest => do
-      let es ← parseEnts (":".intercalate rest)
-      some ⟨← id.toNat?, ← t.toNat?, ← parseRole r, ← c.toNat?, ← off.toNat?, es⟩
+      -- rest = <entries, themselves ':'-separated pairs> ++ ["v<vote>", "d<dterm>.<dvote>.<dcommit>"]
+      guard (rest.length ≥ 3)
+      let es ← parseEnts (":".intercalate (rest.take (rest.length - 2)))
+      let v ← rest[rest.length - 2]?
+      let d ← rest[rest.length - 1]?
+      guard (v.startsWith "v" && d.startsWith "d")
+      let vote ← (v.drop 1).toString.toNat?
+      match ← nats "." (d.drop 1).toString with
+      | [dt, dv, dc] => some ⟨← id.toNat?, ← t.toNat?, ← parseRole r, ← c.toNat?, ← off.toNat?, es, vote, dt, dv, dc⟩
+      | _ => none
     | _ => none
 
 def runActs (vs : List Nat) : St → List String → Except String St
